@@ -4,6 +4,7 @@ From SV Require Import Model.PeakHelpers Spec.PeakHelpersSpec Proof.PeakHelpersP
 From SV Require Import Model.Peaks Spec.PeaksSpec Proof.PeaksProof Proof.PeaksTheorems Proof.PeaksExamples.
 From SV Require Import Model.Merging Spec.MergingSpec Proof.ReplaceMergedProof Proof.MergePeaksProof.
 From SV Require Import Model.PeakProps Spec.PeakPropsSpec Proof.PeakPropsProof.
+From SV Require Import Model.Splitting Proof.SplittingProof.
 
 (* ------------------------------------------------------------------------------------------ *)
 (* symmetric_moving_average (repaired code, `just_out >= 0`) equals the defining windowed mean:
@@ -123,3 +124,44 @@ Theorem C19_index_of_fraction_is_definition : forall A len data fs,
   qsorted fs -> index_of_fraction A len data fs = iof_spec A len data fs.
 Proof. exact index_of_fraction_spec. Qed.
 Print Assumptions C19_index_of_fraction_is_definition.
+
+(* ------------------------------------------------------------------------------------------ *)
+(* _split_peaks: for strictly increasing positive split points ending at n (= len(w)), a parent
+   dt that is a multiple of orig_dt and an area passing min_area, the children tile the parent's
+   span [t, t + n*dt): the first starts at t, each ends where the next starts, the last ends at
+   the parent's end, all have positive length and dt = orig_dt. *)
+Theorem C19_split_tiles_parent : forall t dt area min_area odt n splits,
+  0 < odt -> 0 < dt -> (odt | dt) -> min_area <= area ->
+  splits <> [] -> increasing 0 splits -> last splits 0 = n ->
+  exists cs, split_peak t dt area min_area odt splits = Ok (true, cs) /\
+             tiled t cs (t + n * dt) /\ Forall (fun c => cdt c = odt) cs /\ length cs = length splits.
+Proof. exact split_peak_tiles. Qed.
+Print Assumptions C19_split_tiles_parent.
+
+(* LocalMinimumSplitter.find_split_points yields exactly such split points (ending at len(w)), so
+   local-minimum splitting tiles the parent *)
+Theorem C19_local_minimum_split_points : forall mh mr w, lms_domain mh w ->
+  let s := lms_split_points w mh mr in
+  increasing 0 s /\ (s <> [] -> last s 0 = zlen w).
+Proof. exact lms_split_points_ok. Qed.
+Print Assumptions C19_local_minimum_split_points.
+
+Theorem C19_local_minimum_split_tiles_parent : forall t dt area min_area odt w mh mr,
+  0 < odt -> 0 < dt -> (odt | dt) -> min_area <= area -> lms_domain mh w ->
+  lms_split_points w mh mr <> [] ->
+  exists cs, split_peak_local_minimum t dt area min_area odt w mh mr = Ok (true, cs) /\
+             tiled t cs (t + zlen w * dt) /\ Forall (fun c => cdt c = odt) cs.
+Proof. exact local_minimum_split_tiles. Qed.
+Print Assumptions C19_local_minimum_split_tiles_parent.
+
+(* the full statement "every splitter's children tile the parent" is false for the natural-breaks
+   splitter, whose closing split point is len(w) - 1: such split points tile only up to the
+   parent's end minus one sample (witness: children of [100,116) end at 114). *)
+Definition C19_full_split_tiles_parent_any_splitter : Prop :=
+  forall t dt area min_area odt n splits cs,
+    0 < odt -> 0 < dt -> (odt | dt) -> min_area <= area -> splits <> [] -> increasing 0 splits ->
+    split_peak t dt area min_area odt splits = Ok (true, cs) -> tiled t cs (t + n * dt).
+Theorem C19_split_tiles_parent_short_closing_point_refuted : exists cs,
+  split_peak 100 2 12 0 1 [2; 7] = Ok (true, cs) /\ tiled 100 cs 114 /\ ~ tiled 100 cs 116.
+Proof. exact split_short_of_end. Qed.
+Print Assumptions C19_split_tiles_parent_short_closing_point_refuted.
